@@ -27,7 +27,7 @@ def lu_scenario(g, sid, ty, n, m=None, fn="gssv", fam_opts=None, A=None, style=N
             A = g.lu_product(n, cplx)
         else:
             A, style = g.matrix(m, n, cplx, style=style, kind=kind, nonsingular_pattern=nonsing)
-    fmt = fmt or r.choice(["NC", "NC", "NR"] if fn == "gssv" else ["NC"])
+    fmt = fmt or r.choice(["NC", "NC", "NR"] if fn in ("gssv", "gssvx") else ["NC"])
     colperm = r.choice(ORDERINGS) if colperm is None else colperm
     if m != n and colperm in (MMD_AT_PLUS_A,):
         colperm = COLAMD
@@ -43,8 +43,10 @@ def lu_scenario(g, sid, ty, n, m=None, fn="gssv", fam_opts=None, A=None, style=N
     if colperm == MY_PERMC:
         p = list(range(n)); r.shuffle(p)
         lines.append("permc " + " ".join(map(str, p)))
-    if fn == "gssv":
-        nrhs = r.choice([0, 1, 1, 2, 3]) if nrhs is None else nrhs
+    if fn == "gssvx":
+        lines += opt_lines({"PivotGrowth": r.choice([0, 1]), "Cond": r.choice([0, 1]), "Equil": r.choice([0, 1]), "IterRefine": r.choice([0, 1])})
+    if fn in ("gssv", "gssvx"):
+        nrhs = r.choice([0, 1, 1, 2, 3] if fn == "gssv" else [1, 2]) if nrhs is None else nrhs
         ldb = n + r.choice([0, 0, 3])
         B = g.rhs_for(A, n, nrhs, cplx)
         lines += g.rhs_lines(B, n, nrhs, max(ldb, 1), cplx)
@@ -552,5 +554,62 @@ def fam_equ(g, prop, count, types, float_slice=False):
                 A[(r.randrange(m), r.randrange(n))] = (0.0, 0.0)
             lines = g.mat_lines(A, m, n, "NC", cplx) + ["call equ", "destroy all", "ledger"]
             lst.append({"id": "%s-equ%s-%05d-%s" % (prop, "f" if float_slice else style, i, ty), "lines": lines, "n": n})
+        out[ty] = lst
+    return out
+
+
+# ----------------------------------------------------------------------------- C12 / C13
+def fam_cond(g, prop, count, types, nmax=7):
+    """systems over a wide range of condition numbers (graded diagonals / triangles with power-of-two entries, plus the
+    generic ones), condition estimate, growth factor and refinement switched on"""
+    out = {}
+    for ty, k in split_types(count, types).items():
+        cplx = is_cplx(ty)
+        lst = []
+        for i in range(k):
+            r = g.r
+            n = r.randint(1, nmax)
+            kind = r.choice(["graded", "graded", "generic", "generic", "float"])
+            if kind == "graded":
+                A = {}
+                span = r.choice([4, 20, 60, 100 if ty in "dz" else 40])
+                for ii in range(n):
+                    A[(ii, ii)] = (2.0 ** r.randint(-span, 0) * r.choice([1, -1]), 0.0)
+                    for jj in range(ii + 1, n):
+                        if r.random() < 0.4:
+                            A[(ii, jj) if r.random() < 0.5 else (jj, ii)] = (2.0 ** r.randint(-span, 0), 0.0)
+            elif kind == "generic":
+                A = scaled_matrix(g, n, cplx, r.choice([0, 4]))
+            else:
+                A, _ = g.matrix(n, n, cplx, style="float")
+            o = gssvx_opts(g, Cond=1, PivotGrowth=r.choice([0, 1, 1]), IterRefine=r.choice([0, 1, 2, 2]), Equil=r.choice([0, 0, 1]))
+            fmt = r.choice(["NC", "NC", "NR"])
+            if cplx and fmt == "NR" and o["Trans"] == 2:
+                o["Trans"] = 1
+            nrhs = r.choice([1, 2])
+            B = g.rhs_for(A, n, nrhs, cplx, op=o["Trans"] if (cplx or o["Trans"] != 2) else 1)
+            if r.random() < 0.2:
+                B[0] = [(0.0, 0.0)] * n                     # a zero column
+            lines = ["tune " + " ".join(map(str, g.tune()))] + g.mat_lines(A, n, n, fmt, cplx) + g.rhs_lines(B, n, nrhs, n, cplx) + opt_lines(o)
+            lines += gssvx_block(work=None, events=8) + ["destroy all", "ledger"]
+            lst.append({"id": "%s-cond%s-%05d-%s" % (prop, kind, i, ty), "lines": lines, "n": n})
+        out[ty] = lst
+    return out
+
+
+def fam_lacon(g, prop, count, types):
+    """the estimator driven with an explicit small-integer operator (real types, orders 1, 2, 4, 8)"""
+    out = {}
+    for ty, k in split_types(count, types).items():
+        if is_cplx(ty):
+            continue
+        lst = []
+        for i in range(k):
+            n = g.r.choice([1, 2, 2, 4, 4, 8])
+            A = {(ii, jj): (float(g.r.choice([0, 0, 1, -1, 2, -2, 3, 4, 0.5, -0.5])), 0.0) for ii in range(n) for jj in range(n) if g.r.random() < 0.8}
+            if not A:
+                A = {(0, 0): (1.0, 0.0)}
+            lines = g.mat_lines(A, n, n, "NC", False) + ["call lacon", "destroy all"]
+            lst.append({"id": "%s-lacon-%05d-%s" % (prop, i, ty), "lines": lines, "n": n})
         out[ty] = lst
     return out
